@@ -194,6 +194,7 @@ loop:
 		}
 
 		// Send it off for compression and storage
+		verifYield("chunkstream.feeder")
 		select {
 		case <-ctx.Done():
 			interrupted = true
